@@ -219,6 +219,26 @@ pub fn index_around(bits: usize, extra: usize) -> BoxedStrategy<u64> {
     .boxed()
 }
 
+/// Huge index-like scalars: values whose scaling (x8, x64), increment or narrowing to a smaller
+/// integer type wraps around to something small relative to `bits`.
+pub fn index_huge(bits: usize) -> BoxedStrategy<u64> {
+    let j = 0..=(bits as u64 / 8 + 2);
+    let jb = 0..=(bits as u64 + 2);
+    prop_oneof![
+        2 => (1u64..=7, j.clone()).prop_map(|(k, j)| k << 61 | j),
+        2 => (1u64..=63, jb.clone()).prop_map(|(k, j)| k << 58 | j),
+        2 => (prop_oneof![Just(8u32), Just(16), Just(31), Just(32), Just(33), Just(48), Just(61), Just(62), Just(63)], jb.clone()).prop_map(|(e, j)| (1u64 << e) + j),
+        2 => jb.prop_map(|j| u64::MAX - j),
+        1 => any::<u64>(),
+    ]
+    .boxed()
+}
+
+/// `index_around` with a share of huge values.
+pub fn index_any(bits: usize, extra: usize) -> BoxedStrategy<u64> {
+    prop_oneof![6 => index_around(bits, extra), 1 => index_huge(bits)].boxed()
+}
+
 /// Random bytes of length 0..=max.
 pub fn bytes_upto(max: usize) -> BoxedStrategy<Vec<u8>> {
     vec(any::<u8>(), 0..=max).boxed()
